@@ -17,7 +17,13 @@
  *   c20_render_fn.inc) with the REAL struct gsm48_rr_cd of include/osmocom/bb/mobile/gsm48_rr.h.  STUBBED: struct osmocom_ms /
  *   gsm322_cellsel / gsm_settings reduced to the members the function touches (cellsel.arfcn, cellsel.si, settings.freq_map:
  *   every frequency supported), gsm_refer_pcs (false), gsm_print_arfcn (""), arfcn2index (arfcn & 1023),
- *   gsm48_decode_freq_list (never reached: cell_desc_lv[0] = 0).  cd->h = 1, the three other list members are empty.
+ *   gsm48_decode_freq_list (mode "render": never reached, cell_desc_lv[0] = 0).  cd->h = 1, the three other list members are empty.
+ * Mode "rendercd" (built with -DC20_REAL_FREQ_LIST and the vendored libosmocore src/gsm/gsm48_ie.c linked in): the same with
+ *   cd->cell_desc_lv given and the REAL gsm48_decode_freq_list.
+ *   input line : hl0 hfill bg nlv lv.. ncd cell_desc_lv.. nother other.. (idx mask)*   (nlv = 9, ncd = 17; 'other' is for the model only)
+ *   output line: rc ma_len ma[0..N-1] (idx newmask)*
+ * Mode "freqlist": input 'ncd cell_desc_lv..' -> 'rc a_1 a_2 ..' = the entries the REAL gsm48_decode_freq_list(f, lv + 1, 16, 0xce,
+ *   FREQ_TYPE_SERV) flags in an all-zero table (this is the argument 'other' of the model for the formats it does not model).
  *   input line : hl0 hfill bg nlv lv_0 .. lv_{nlv-1} (idx mask)*    (nlv = sizeof(cd->mob_alloc_lv))
  *   output line: rc ma_len ma[0..N-1] (idx newmask)*
  *
@@ -175,8 +181,10 @@ struct osmocom_ms { struct gsm48_rrlayer rrlayer; struct gsm322_cellsel cellsel;
 bool gsm_refer_pcs(uint16_t cell_arfcn, const struct gsm48_sysinfo *cell_s) { (void)cell_arfcn; (void)cell_s; return false; }
 char *gsm_print_arfcn(uint16_t arfcn) { (void)arfcn; return ""; }
 static int freq_list_called;
+#ifndef C20_REAL_FREQ_LIST
 int gsm48_decode_freq_list(struct gsm_sysinfo_freq *f, uint8_t *cd, uint8_t len, uint8_t mask, uint8_t frqt)
 { (void)f; (void)cd; (void)len; (void)mask; (void)frqt; freq_list_called = 1; return 0; }
+#endif
 static int arfcn2index(uint16_t arfcn) { return arfcn & 1023; }
 
 #include "c20_render_fn.inc"
@@ -220,6 +228,74 @@ static int run_render(int n, FILE *out)
 	fprintf(out, "\n");
 	return 0;
 }
+#define CD_SIZE ((int)sizeof(((struct gsm48_rr_cd *)0)->cell_desc_lv))
+#ifdef C20_REAL_FREQ_LIST
+/* the inline msgb helpers pulled in by the vendored gsm48_ie.c refer to it */
+void osmo_panic(const char *fmt, ...) { (void)fmt; abort(); }
+static int run_rendercd(int n, FILE *out)
+{
+	long hl0, hfill, bg, nlv, ncd, no; int i, k, np, at;
+	if (n < 4) return -1;
+	hl0 = tok[0]; hfill = tok[1]; bg = tok[2]; nlv = tok[3];
+	if (hl0 < 0 || hl0 > 255 || bg < 0 || bg > 255 || nlv != LV_SIZE || nlv >= n - 4 || hfill < 0 || hfill > 65535) return -1;
+	ncd = tok[4 + nlv];
+	if (ncd != CD_SIZE || ncd >= n - 5 - nlv) return -1;
+	no = tok[5 + nlv + ncd];
+	if (no < 0 || no > n - 6 - nlv - ncd) return -1;
+	for (i = 0; i < nlv; i++) if (tok[4 + i] < 0 || tok[4 + i] > 255) return -1;
+	for (i = 0; i < ncd; i++) if (tok[5 + nlv + i] < 0 || tok[5 + nlv + i] > 255) return -1;
+	for (i = 0; i < no; i++) if (tok[6 + nlv + ncd + i] < 0 || tok[6 + nlv + ncd + i] > 1023) return -1;
+	at = 6 + nlv + ncd + no;
+	np = n - at;
+	if (np % 2) return -1;
+	{ long prev = -1; for (i = 0; i < np; i += 2) { long idx = tok[at + i], m = tok[at + i + 1];
+		if (idx <= prev || idx >= FREQ_SIZE || m < 0 || m > 255) return -1; prev = idx; } }
+
+	struct gsm48_sysinfo *s = calloc(1, sizeof(*s));
+	struct gsm_sysinfo_freq *freq0 = malloc(sizeof(s->freq));
+	struct osmocom_ms *ms = calloc(1, sizeof(*ms));
+	struct gsm48_rr_cd *cd = calloc(1, sizeof(*cd));
+	uint16_t *ma = malloc(sizeof(uint16_t) * HOPPING_SIZE);
+	uint8_t *ma_len = malloc(1);
+	ms->cellsel.si = s;
+	memset(ms->settings.freq_map, 0xff, sizeof(ms->settings.freq_map));
+	cd->h = 1;
+	for (i = 0; i < nlv; i++) cd->mob_alloc_lv[i] = tok[4 + i];
+	for (i = 0; i < ncd; i++) cd->cell_desc_lv[i] = tok[5 + nlv + i];
+	for (i = 0; i < FREQ_SIZE; i++) s->freq[i].mask = bg;
+	for (i = 0; i < np; i += 2) s->freq[tok[at + i]].mask = tok[at + i + 1];
+	memcpy(freq0, s->freq, sizeof(s->freq));
+	for (k = 0; k < HOPPING_SIZE; k++) ma[k] = (hfill + k) % 65536;
+	*ma_len = hl0;
+
+	int rc = gsm48_rr_render_ma(ms, cd, ma, ma_len);
+
+	fprintf(out, "%d %d", rc, *ma_len);
+	for (k = 0; k < HOPPING_SIZE; k++) fprintf(out, " %d", ma[k]);
+	for (i = 0; i < FREQ_SIZE; i++) if (s->freq[i].mask != freq0[i].mask) fprintf(out, " %d %d", i, s->freq[i].mask);
+	fprintf(out, "\n");
+	return 0;
+}
+
+static int run_freqlist(int n, FILE *out)
+{
+	int i;
+	if (n < 1 || tok[0] != CD_SIZE || n != 1 + CD_SIZE) return -1;
+	for (i = 0; i < CD_SIZE; i++) if (tok[1 + i] < 0 || tok[1 + i] > 255) return -1;
+	struct gsm_sysinfo_freq *f = calloc(FREQ_SIZE, sizeof(*f));
+	uint8_t *lv = malloc(CD_SIZE);
+	for (i = 0; i < CD_SIZE; i++) lv[i] = tok[1 + i];
+	int rc = gsm48_decode_freq_list(f, lv + 1, 16, 0xce, FREQ_TYPE_SERV);
+	fprintf(out, "%d", rc);
+	for (i = 0; i < FREQ_SIZE; i++) if (f[i].mask & FREQ_TYPE_SERV) fprintf(out, " %d", i);
+	fprintf(out, "\n");
+	return 0;
+}
+#else
+static int run_rendercd(int n, FILE *out) { (void)n; (void)out; return -1; }
+static int run_freqlist(int n, FILE *out) { (void)n; (void)out; return -1; }
+#endif
+
 #ifdef C20_WITH_ASSIGN
 #include <osmocom/core/msgb.h>
 #include <osmocom/gsm/rsl.h>
@@ -318,6 +394,9 @@ static int run_assign(int n, FILE *out) { (void)n; (void)out; return -1; }
 #else
 static int run_render(int n, FILE *out) { (void)n; (void)out; return -1; }
 static int run_assign(int n, FILE *out) { (void)n; (void)out; return -1; }
+static int run_rendercd(int n, FILE *out) { (void)n; (void)out; return -1; }
+static int run_freqlist(int n, FILE *out) { (void)n; (void)out; return -1; }
+#define CD_SIZE 0
 #endif
 
 static int parse(char *line)
@@ -374,19 +453,21 @@ int main(int argc, char **argv)
 {
 	static char line[1 << 16];
 	if (argc > 1 && !strcmp(argv[1], "const")) {
-		printf("%d %d %d %d %d %d %d %d\n", (int)EIO, (int)GSM48_IE_CBCH_CHAN_DESC, (int)GSM48_IE_CBCH_MOB_AL, HDR,
+		printf("%d %d %d %d %d %d %d %d %d %d\n", (int)EIO, (int)GSM48_IE_CBCH_CHAN_DESC, (int)GSM48_IE_CBCH_MOB_AL, HDR,
 		       (int)sizeof(struct gsm48_chan_desc),
 #ifdef C20_WITH_RENDER
 		       LV_SIZE,			/* sizeof(cd->mob_alloc_lv) of the real struct gsm48_rr_cd, as compiled */
 #else
 		       (int)(C20_MOB_ALLOC_LV_SIZE),	/* the bound as written in gsm48_rr.h */
 #endif
-		       (int)GSM48_RR_CAUSE_NO_CELL_ALLOC_A, SI4_MSG_SIZE);
+		       (int)GSM48_RR_CAUSE_NO_CELL_ALLOC_A, SI4_MSG_SIZE, (int)GSM48_RR_CAUSE_ABNORMAL_UNSPEC, (int)(CD_SIZE ? CD_SIZE : C20_CELL_DESC_LV_SIZE));
 		return 0;
 	}
 	int render = argc > 1 && !strcmp(argv[1], "render");
 	int hist = argc > 1 && !strcmp(argv[1], "hist");
 	int assign = argc > 1 && !strcmp(argv[1], "assign");
+	int rendercd = argc > 1 && !strcmp(argv[1], "rendercd");
+	int freqlist = argc > 1 && !strcmp(argv[1], "freqlist");
 	long caseno = 0;
 	while (fgets(line, sizeof(line), stdin)) {
 		int n = parse(line);
@@ -401,7 +482,7 @@ int main(int argc, char **argv)
 			dup2(pe[1], 2);
 			FILE *out = fdopen(po[1], "w");
 			alarm(20);
-			if (n < 0 || (assign ? run_assign(n, out) : hist ? run_hist(n, out) : render ? run_render(n, out) : run_case(n, out)) < 0) fprintf(out, "-999\n");
+			if (n < 0 || (rendercd ? run_rendercd(n, out) : freqlist ? run_freqlist(n, out) : assign ? run_assign(n, out) : hist ? run_hist(n, out) : render ? run_render(n, out) : run_case(n, out)) < 0) fprintf(out, "-999\n");
 			fflush(out);
 			_exit(0);
 		}
